@@ -38,7 +38,7 @@ ANCHORS = [("rig.machine_control.regions", "RegionCoreTree.add_core",
                  "if self.subregions[subregion].add_core(x, y, p):"})]
 
 CLASSES = ["sparse", "aligned", "nearfull", "straddle", "percore", "mixed",
-           "chipword", "invalid", "staged"]
+           "chipword", "invalid", "staged", "manycores"]
 
 
 def plan(tier):
@@ -124,6 +124,25 @@ def gen(cls, idx, rng, tier):
                   rng.randrange(0, size)) % 256
             ops.append(("rect", ox, oy, min(size, 256 - ox),
                         min(size, 256 - oy), rcores(rng)))
+    if cls == "manycores":
+        # every (or nearly every) core number is in use somewhere below one
+        # node of the tree, and the core numbers fall into one, two or
+        # three groups with different chip sets
+        ox, oy = rng.randrange(0, 256, 4), rng.randrange(0, 256, 4)
+        span = rng.choice([4, 4, 16, 64])
+        everyone = list(range(18)) if rng.random() < .7 else \
+            sorted(rng.sample(range(18), rng.randint(15, 17)))
+        near = lambda: ((ox + rng.randrange(span)) & 255,
+                        (oy + rng.randrange(span)) & 255)
+        for _ in range(rng.randint(1, 3)):
+            ops.append(("pt",) + near() + (everyone,))
+        for _ in range(rng.randint(0, 3)):
+            ops.append(("pt",) + near() + (rcores(rng, 1, 3),))
+        if rng.random() < .3:
+            ops.append(("rect", ox, oy, 4, 4, rcores(rng, 1, 18)))
+        if rng.random() < .3:
+            ops.append(("pt", rng.randrange(256), rng.randrange(256),
+                        rcores(rng, 1, 18)))
     if cls == "percore":
         ox, oy = rng.randrange(0, 252), rng.randrange(0, 252)
         base = rcores(rng, 1, 3)
